@@ -63,3 +63,4 @@ package poll
 //@ ensures len(cs.conns[conn.group]) == old(len(cs.conns[conn.group])) || len(cs.conns[conn.group]) == old(len(cs.conns[conn.group])) - 1
 //@ ensures len(cs.conns[conn.group]) == old(len(cs.conns[conn.group])) ==> cs.len == old(cs.len)
 //@ ensures len(cs.conns[conn.group]) == old(len(cs.conns[conn.group])) - 1 ==> cs.len == old(cs.len) - 1
+
